@@ -4,15 +4,16 @@
 # Prints one line per check: "<patch> <ID> exit=<code>"; expected: exit=1 (violation detected).
 set -u
 PATCH="$(realpath "$1")"; shift
-cd /repo || exit 2
-if ! git diff --quiet; then echo "refusing: /repo has uncommitted changes"; exit 2; fi
-cleanup() { git -C /repo checkout -- . ; }
+REPO="${MUT_REPO:-/repo}"; VH="${MUT_VERIF:-/verif}"; OUT="${MUT_OUT:-/dev/shm/verif-mut}"
+cd "$REPO" || exit 2
+if ! git diff --quiet; then echo "refusing: $REPO has uncommitted changes"; exit 2; fi
+cleanup() { git -C "$REPO" checkout -- . ; }
 trap cleanup EXIT
 if ! git apply "$PATCH" 2>/dev/null && ! git apply --3way "$PATCH" 2>/dev/null; then echo "$(basename "$PATCH") DOES-NOT-APPLY"; exit 2; fi; git reset -q 2>/dev/null
-rm -rf /dev/shm/verif-mut; mkdir -p /dev/shm/verif-mut/replays
-cp /verif/known_findings.json /dev/shm/verif-mut/ 2>/dev/null
-[ -d /verif/replays/regress ] && cp -r /verif/replays/regress /dev/shm/verif-mut/replays/
+rm -rf "$OUT"; mkdir -p "$OUT/replays"
+cp "$VH/known_findings.json" "$OUT/" 2>/dev/null
+[ -d "$VH/replays/regress" ] && cp -r "$VH/replays/regress" "$OUT/replays/"
 for ID in "$@"; do
-    out="$(cd /verif && VERIF_DIR=/dev/shm/verif-mut VERIF_MAX_SHRINK=60 ./run.sh "$ID" quick 2>&1)"; rc=$?
+    out="$(cd "$VH" && VERIF_REPO="$REPO" VERIF_DIR="$OUT" VERIF_MAX_SHRINK=60 ./run.sh "$ID" quick 2>&1)"; rc=$?
     echo "$(basename "$PATCH") $ID exit=$rc $(echo "$out" | grep -m1 -A1 '^  check=' | tr '\n' ' ' | cut -c1-260)"
 done
